@@ -23,7 +23,7 @@ def svc(m):
 
 
 def chk(m):
-    return "(Chk %d %d %d %d %d %d)" % (m["sid"], m["status"], m["out"], m["rest"], m["sname"], m["stags"])
+    return "(Chk %d %d %d %d %d %d %d)" % (m["sid"], m["status"], m["out"], m["rest"], m["sname"], m["stags"], m.get("aux", 0))
 
 
 def chks(cs):
@@ -45,6 +45,8 @@ def step(s, wf=False):
         return "SRemoveChk %d" % i
     if op == "updchk":
         return "SUpdChk %d %d %d" % (i, s.get("status", 0), s.get("out", 0))
+    if op == "timer":
+        return "STimer %d" % i
     if op == "uss":
         return "SUpdateSyncState"
     if op == "syncchanges":
@@ -65,7 +67,7 @@ def step(s, wf=False):
 
 def case_to_coq(c):
     h = c["hist"]
-    cfg = "(Cfg %d %d %d 1 %d %d)" % (h["user"], h["agent"], h["cfg"], CONSUL, CONSUL)
+    cfg = "(Cfg %d %d %d 1 %d %d %s)" % (h["user"], h["agent"], h["cfg"], CONSUL, CONSUL, coq_bool(h.get("defer", False)))
     steps = coq_list([step(s, h["wf"]) for s in h["steps"]])
     faults = coq_list([OUTCOME[f] for f in c["faults"]])
     exp = coq_list([coq_list([nl(r) for r in st]) for st in c["obs"]])
